@@ -296,7 +296,8 @@ def tables(b, c, show_processing):
     sb, sc_ = metrics.GlobalStats(b), metrics.GlobalStats(c)
     plain = r._metrics_table(sb, sc_, plain=True)
     rich = r._metrics_table(sb, sc_, plain=False)
-    return plain, rich
+    # (materialised only after both have been built, as _write_report consumes them)
+    return list(plain), list(rich)
 
 
 def check_pair(b, c, res, show_processing=False, label=""):
@@ -344,6 +345,12 @@ def check_pair(b, c, res, show_processing=False, label=""):
         res.violation(f"compare:{v[0]}", f"{label}: {v[1]}", {"b": b, "c": c, "show_processing": show_processing, "kind": "pair"})
 
 
+def _race(name, results):
+    import types
+
+    return types.SimpleNamespace(results=results, race_id=name, race_timestamp="20260101T000000Z", challenge_name="c", car_name="defaults", user_tags={})
+
+
 def check_files(b, c, res):
     """the file text equals the console text without colour codes (csv exactly; markdown cell by cell)"""
     from esrally import metrics
@@ -355,11 +362,14 @@ def check_files(b, c, res):
             r = reporter(False, fmt, path)
             buf = io.StringIO()
             with contextlib.redirect_stdout(buf):
-                sb, sc_ = metrics.GlobalStats(b), metrics.GlobalStats(c)
-                plain = r._metrics_table(sb, sc_, plain=True)
-                rich = r._metrics_table(sb, sc_, plain=False)
-                r._write_report(plain, rich)
-            console_text = ANSI.sub("", buf.getvalue())
+                # the public entry point, so that the order in which the two tables are built and written is the implementation's own
+                r.report(_race("baseline", b), _race("contender", c))
+            raw = buf.getvalue()
+            # the table starts at its header line (the race descriptions above it are not part of the report file)
+            lines = raw.splitlines()
+            first = next((i for i, ln in enumerate(lines) if "Metric" in ln and "Baseline" in ln and "Diff" in ln), len(lines))
+            raw = "\n".join(lines[first:])
+            console_text = ANSI.sub("", raw)
             file_text = open(path, encoding="utf-8").read() if os.path.exists(path) else None
 
             def cells(t):
@@ -372,9 +382,9 @@ def check_files(b, c, res):
                 v = ("no-report-file", fmt)
             elif cells(console_text) != cells(file_text):
                 v = ("file-differs-from-console", f"{fmt}: console {cells(console_text)[:4]} file {cells(file_text)[:4]}")
-            elif buf.getvalue() == console_text and plain:
+            elif raw == console_text and len(cells(console_text)) > 2:
                 v = ("console-has-no-colour", fmt)
-            res.case(nontrivial_key=("file", fmt, repr(b), repr(c)), outcome_key=("file", fmt, v[0] if v else "ok", len(plain)))
+            res.case(nontrivial_key=("file", fmt, repr(b), repr(c)), outcome_key=("file", fmt, v[0] if v else "ok", len(cells(console_text))))
             if v:
                 res.violation(f"compare:{v[0]}:{fmt}", v[1], {"b": b, "c": c, "kind": "file"})
     finally:
